@@ -255,6 +255,11 @@ def units():
             Unit("TDGLSolver.solve[paths]", "tdgl.solver.solver:TDGLSolver.solve", run_solve_paths, props=["C15", "C19"], timeout=600)]
 
 
+def replay_scope(unit, obl):
+    """the native replay of this property searches per unit, not per obligation: run it once per unit"""
+    return "unit"
+
+
 def replay(unit, obl):
     from checks import c15_native
     return c15_native.replay(unit, obl)
